@@ -25,11 +25,11 @@ def tree_stage(ctx):
         wl = ctx.pick(10, 16)
         walks = ctx.behaviours("chain", "Gen_BlockTree", "Gen_BlockTree.cfg",
                                constants=dict(MaxHandles=ctx.pick(5, 6), MaxOps=wl, Depth=wl, Misuse=misuse, Race=race, Quiet="FALSE"),
-                               simulate="num=%d" % ctx.pick(250, 3000), depth=wl + 2, seed=ctx.seed, timeout=900)
+                               simulate="num=%d" % ctx.pick(250, 1500), depth=wl + 2, seed=ctx.seed, timeout=900)
         # walks of tree-changing calls only: they build and prune deeper trees (branches with children are discarded)
         walks += ctx.behaviours("chain", "Gen_BlockTree", "Gen_BlockTree.cfg",
                                 constants=dict(MaxHandles=ctx.pick(6, 7), MaxOps=wl, Depth=wl, Misuse=misuse, Race=race, Quiet="TRUE"),
-                                simulate="num=%d" % ctx.pick(150, 2000), depth=wl + 2, seed=ctx.seed + 7, timeout=900)
+                                simulate="num=%d" % ctx.pick(150, 800), depth=wl + 2, seed=ctx.seed + 7, timeout=900)
         ctx.sample([dict(op=s["op"], res=s.get("res"), p=s.get("p"), v=s.get("v"), h=s.get("h")) for s in walks[0]][:8])
         bs = bs + walks
     inp = ctx.path("in", "tree.ndjson")
